@@ -76,6 +76,7 @@ class Ctx:
         s = case_id if isinstance(case_id, str) else json.dumps(jsonable(case_id))
         if s in self.skip:
             return False
+        self.last_case = s
         if self.journal_fd is not None:
             b = s.encode("utf-8", "backslashreplace")[:8000]
             os.pwrite(self.journal_fd, len(b).to_bytes(4, "big") + b, 0)
@@ -246,3 +247,43 @@ class Ctx:
 
 def format_exc():
     return traceback.format_exc()[-2000:]
+
+
+
+def subject_exception(exc):
+    """An exception that escaped a property module.  If it was raised inside the library under test
+    (a frame below the last harness frame lies in <repo>/src or in a compiled biotite module), the
+    harness called the library where it expected success and the library raised: that is an
+    observation about the subject, not a harness error.  Returns (exception class, site) or None."""
+    import traceback
+
+    from mc import loader
+
+    frames = traceback.extract_tb(exc.__traceback__)
+    verif = str(loader.VERIF)
+    src = str(loader.REPO / "src")
+    last_h = -1
+    for i, f in enumerate(frames):
+        if f.filename.startswith(verif + "/props") or f.filename.startswith(verif + "/mc"):
+            last_h = i
+    for f in frames[last_h + 1:]:
+        fn = f.filename
+        if fn.startswith(src) or ("biotite/" in fn and fn.endswith(".pyx")):
+            return type(exc).__name__, "%s:%s" % (os.path.basename(fn), f.name)
+    return None
+
+
+def unguarded_violation(ctx, exc, case):
+    """Report a subject exception that no oracle of the module anticipated.  Returns True if reported."""
+    se = subject_exception(exc)
+    if se is None:
+        return False
+    if isinstance(case, str):
+        try:
+            case = json.loads(case)
+        except ValueError:
+            pass
+    ctx.violation("unguarded_exception|%s|%s" % se,
+                  "the library raised %s (%s) in a call that every oracle of this check expects to succeed; the rest "
+                  "of the shard was not explored" % (se[0], str(exc)[:200]), case, "no exception", "%s at %s" % se)
+    return True
